@@ -1198,6 +1198,26 @@ class Interp:
                     return C(len(segs))
                 return ("len", ("iter", v))
             return ("len", ("iter", v))
+        if g.endswith("Option::<T>::and_then") and len(arg_nodes) == 2:
+            # `a.and_then(|x| f(x))`: `match a { Some(x) => f(x), None => None }`
+            v = ev(0)
+            f = ev(1)
+
+            def hit(e2):
+                inner = v[2][0] if is_var(v, SOME) else payload(v, SOME, 0)
+                if f[0] == "closure":
+                    return self.call_closure(f, [inner])
+                if f[0] == "fnref":
+                    return self.call_path(f[1], [inner], f[2])
+                if f[0] == "ctor":
+                    return var(f[1], inner)
+                return ("app", "callvalue", (f, inner))
+            if is_var(v, SOME):
+                return hit(env)
+            if is_var(v, NONE):
+                return v
+            c_some = ("is", v, SOME)
+            return self.branches([(c_some, hit), (("not", c_some), lambda e2: var(NONE))], env, core.loc(n))
         if re.search(r"Option::<T>::(or_else|unwrap_or_else|or)$", g) and len(arg_nodes) == 2:
             # `a.or_else(|| b)` / `a.unwrap_or_else(|| d)` / `a.or(b)`: the same two-way decision as
             # `match a { Some(x) => .., None => .. }`, so that the paths (and the order of the lookups) are visible
